@@ -31,6 +31,11 @@ class SymRange:
 
     def _len(self):
         lo, hi = z3num(self.lo), z3num(self.hi)
+        try:
+            if not cur().sat(hi < lo, timeout=1000):
+                return SR(z3.simplify(hi - lo))  # the path condition excludes an empty-by-inversion range
+        except Exception:
+            pass
         return SR(z3.If(hi > lo, hi - lo, 0))
 
     def _contains(self, x):
